@@ -173,8 +173,9 @@ CHECKS["C18"] = dict(
          "non-decreasing in Re the coefficient is non-decreasing in velocity in the turbulent regime.  Tied to "
          "thermalfluid.py by evaluating all shipped variants and random polynomial fluids against the model and an "
          "independent evaluation.",
-    note="partial: the Gnielinski formula (log, real powers) is validated against an independent float evaluation and its "
-         "monotonicity in Re on [2e3,1e7]x[0.1,1e3] on a 400x60 grid; neither is proved.  JAX polynomial evaluation trusted.",
+    note="partial: the Gnielinski value (log, real powers) is validated against an independent float evaluation; its monotonicity "
+         "in Re is proved over the reals for Pr >= 1, Re >= 1000 (C18_gnielinski_monotone_in_reynolds, Coquelicot + Interval) and "
+         "validated on a 400x60 grid for Pr in [0.1, 1).  JAX polynomial evaluation trusted.",
     technique="Coq proof (order lemmas over Q) + evaluation correspondence by vm_compute + dense sweeps",
     design="4/C18")
 
